@@ -318,3 +318,229 @@ fn parse_one_symbol_las6() {
     parse_one_symbol(6, 1);
     parse_one_symbol(6, 40);
 }
+
+// ================================================================================================
+// cd2.*  Histogram::parse for the "binary" and "flat" header forms (18181-1 C.2.? ANS distribution)
+// ================================================================================================
+//   simple, two symbols:  1, 1, v1 = U8(), v2 = U8() (v1 != v2), D[v1] = u(12), D[v2] = 4096 - D[v1]
+//   flat:                 0, 1, alphabet_size = U8() + 1, D[i] = floor(4096 / alphabet_size) + (i < 4096 mod alphabet_size ? 1 : 0)
+//   table of 2^log_alphabet_size entries, log_bucket_size = 12 - log_alphabet_size; alphabet_size > table size is invalid.
+// The alias-table construction is INLINE in Histogram::parse (ans.rs:200-254, no helper to cut at), so these obligations
+// run it for real and check its result too: D (the distribution vector, per symbol), wf_table, wf_slot for every one of
+// the 4096 slots, and injectivity of the alias mapping (with sum D = 4096: a bijection onto the pairs (s, o), o < D[s]).
+// What makes that tractable (the header of the one-symbol section measured the opposite): CBMC's
+// --max-field-sensitivity-array-size raised from 64 to 1024 (registry cbmc_args), so that the 256..1024-byte
+// WorkingBucket / Bucket / work-list heap arrays are constant-propagated; header fields CONCRETE through a scripted
+// reader (assumed contract of read_bool / read_bits: next field masked to the requested width; widths are recorded and
+// checked). A symbolic u(12) probability (work lists of symbolic length) and log_alphabet_size = 8 still do not finish
+// (25 min / 15 min): binary headers are covered for the listed concrete probabilities only, flat headers for EVERY
+// alphabet_size at log_alphabet_size 5 and for samples at 6 and 7.
+const S2_POS_BASE: usize = 0x414e_5332_5053_0000;
+static mut S2: [u32; 12] = [0x5c53_0001, 0x5c53_0002, 0x5c53_0003, 0x5c53_0004, 0x5c53_0005, 0x5c53_0006,
+    0x5c53_0007, 0x5c53_0008, 0x5c53_0009, 0x5c53_000a, 0x5c53_000b, 0x5c53_000c];
+static mut S2_W: [u32; 12] = [0x5c54_0001, 0x5c54_0002, 0x5c54_0003, 0x5c54_0004, 0x5c54_0005, 0x5c54_0006,
+    0x5c54_0007, 0x5c54_0008, 0x5c54_0009, 0x5c54_000a, 0x5c54_000b, 0x5c54_000c];
+static mut S2_POS: usize = S2_POS_BASE;
+fn s2_read_bool<'a>(_bs: &mut Bitstream<'a>) -> jxl_bitstream::BitstreamResult<bool> where 'a: 'a {
+    unsafe {
+        let k = S2_POS - S2_POS_BASE;
+        let v = S2[k];
+        S2_W[k] = 1;
+        S2_POS += 1;
+        Ok(v & 1 != 0)
+    }
+}
+fn s2_read_bits<'a>(_bs: &mut Bitstream<'a>, n: usize) -> jxl_bitstream::BitstreamResult<u32> where 'a: 'a {
+    unsafe {
+        let k = S2_POS - S2_POS_BASE;
+        let v = S2[k];
+        S2_W[k] = n as u32;
+        S2_POS += 1;
+        Ok(if n >= 32 { v } else { v & ((1u32 << n) - 1) })
+    }
+}
+
+struct Script {
+    f: [u32; 12],
+    w: [u32; 12],
+    n: usize,
+}
+impl Script {
+    fn new() -> Self { Script { f: [0; 12], w: [0; 12], n: 0 } }
+    fn put(&mut self, v: u32, w: u32) { self.f[self.n] = v; self.w[self.n] = w; self.n += 1; }
+    /// U8(): u(1) == 0 -> 0, else n = u(3), value = 2^n + u(n)      (18181-1 U8)
+    fn put_u8(&mut self, n: Option<u32>, low: u32) {
+        match n {
+            None => self.put(0, 1),
+            Some(n) => { self.put(1, 1); self.put(n, 3); self.put(low, n); }
+        }
+    }
+    fn install(&self) {
+        unsafe { S2 = self.f; S2_W = [77; 12]; S2_POS = S2_POS_BASE; }
+    }
+    fn check_consumed(&self) {
+        let used = unsafe { S2_POS - S2_POS_BASE };
+        assert!(used == self.n, "[C04] exactly the header fields are read");
+        let w = unsafe { S2_W };
+        let mut i = 0;
+        while i < 12 {
+            if i < self.n { assert!(w[i] == self.w[i], "[C04] each header field is read with its width"); }
+            i += 1;
+        }
+    }
+}
+
+/// postcondition shared by all forms: `want(k)` is the distribution the standard assigns to symbol k
+fn check_parsed(h: &Histogram, las: u32, want: impl Fn(usize) -> u32, single: Option<u32>) {
+    let size = 1usize << las;
+    assert!(wf_table(h) && h.buckets.len() == size && h.log_bucket_size == 12 - las, "[C02,C04] parse establishes wf_table, log_bucket_size = 12 - log_alphabet_size");
+    let k: usize = kani::any();
+    kani::assume(k < size);
+    assert!(h.buckets[k].dist as u32 == want(k), "[C04] D is the distribution the header denotes");
+    assert!(h.single_symbol() == single, "[C04] single_symbol() is Some exactly for a one-symbol distribution");
+    let x: u32 = kani::any();
+    kani::assume(x < 4096);
+    assert!(wf_slot(h, x), "[C02,C04] parse establishes wf_slot for every one of the 4096 slots");
+    let y: u32 = kani::any();
+    kani::assume(y < 4096 && y != x);
+    assert!(spec_alias_lookup(h, x) != spec_alias_lookup(h, y), "[C04] the alias mapping is injective, hence a bijection onto the pairs (s, o) with o < D[s]");
+}
+
+/// U8() encoding of v: None for 0, else (n, v - 2^n) with n = floor(log2 v)
+fn u8_fields(v: u32) -> (Option<u32>, u32) {
+    if v == 0 { (None, 0) } else { let n = 31 - v.leading_zeros(); (Some(n), v - (1 << n)) }
+}
+
+fn run_parse(s: &Script, las: u32) -> CodingResult<Histogram> {
+    s.install();
+    let data = [0u8; 1];
+    let mut bs = Bitstream::new(&data);
+    Histogram::parse(&mut bs, las)
+}
+
+/// "binary" form: 1, 1, v1 = U8(), v2 = U8(), D[v1] = u(12), D[v2] = 4096 - D[v1]
+fn binary_script(v0: u32, v1: u32, prob: u32) -> Script {
+    let mut s = Script::new();
+    s.put(1, 1);
+    s.put(1, 1);
+    let (n0, l0) = u8_fields(v0);
+    let (n1, l1) = u8_fields(v1);
+    s.put_u8(n0, l0);
+    s.put_u8(n1, l1);
+    s.put(prob, 12);
+    s
+}
+
+fn parse_binary(las: u32, v0: u32, v1: u32, prob: u32) {
+    let s = binary_script(v0, v1, prob);
+    let r = run_parse(&s, las);
+    match &r {
+        Err(_) => assert!(false, "[C04] a two-symbol header inside the alphabet is accepted"),
+        Ok(h) => {
+            s.check_consumed();
+            let want = |k: usize| if k == v0 as usize { prob } else if k == v1 as usize { 4096 - prob } else { 0 };
+            check_parsed(h, las, want, if prob == 0 { Some(v1) } else { None });
+        }
+    }
+    kani::cover!(r.is_ok());
+}
+
+/// v1 == v2, or a symbol outside the 2^log_alphabet_size table: InvalidAnsHistogram
+fn parse_binary_rejected(las: u32, v0: u32, v1: u32) {
+    let s = binary_script(v0, v1, 1234);
+    let r = run_parse(&s, las);
+    assert!(matches!(&r, Err(Error::InvalidAnsHistogram)), "[C04] equal symbols / a symbol >= 2^log_alphabet_size in a two-symbol header is rejected");
+    kani::cover!(r.is_err());
+}
+
+/// "flat" form: 0, 1, alphabet_size = U8() + 1; D[i] = floor(4096 / alphabet_size) + (i < 4096 mod alphabet_size ? 1 : 0)
+fn flat_script(alphabet_size: u32) -> Script {
+    let mut s = Script::new();
+    s.put(0, 1);
+    s.put(1, 1);
+    let (n, l) = u8_fields(alphabet_size - 1);
+    s.put_u8(n, l);
+    s
+}
+
+fn spec_flat(alphabet_size: u32, k: usize) -> u32 {
+    let base = 4096 / alphabet_size;
+    let rem = 4096 % alphabet_size;
+    if (k as u32) < alphabet_size { base + ((k as u32) < rem) as u32 } else { 0 }
+}
+
+fn parse_flat(las: u32, alphabet_size: u32) {
+    assert!(alphabet_size * (4096 / alphabet_size) + 4096 % alphabet_size == 4096); // the spec distribution sums to 2^12
+    let s = flat_script(alphabet_size);
+    let r = run_parse(&s, las);
+    match &r {
+        Err(_) => assert!(false, "[C04] a flat header with alphabet_size <= 2^log_alphabet_size is accepted"),
+        Ok(h) => {
+            s.check_consumed();
+            check_parsed(h, las, |k| spec_flat(alphabet_size, k), if alphabet_size == 1 { Some(0) } else { None });
+        }
+    }
+    kani::cover!(r.is_ok());
+}
+
+fn parse_flat_rejected(las: u32, alphabet_size: u32) {
+    let s = flat_script(alphabet_size);
+    let r = run_parse(&s, las);
+    assert!(matches!(&r, Err(Error::InvalidAnsHistogram)), "[C04] a flat header with alphabet_size > 2^log_alphabet_size is rejected");
+    kani::cover!(r.is_err());
+}
+
+macro_rules! ans_parse_harness {
+    ($name:ident, $unwind:literal, $body:block) => {
+        #[kani::proof]
+        #[kani::stub(jxl_bitstream::Bitstream::read_bool, s2_read_bool)]
+        #[kani::stub(jxl_bitstream::Bitstream::read_bits, s2_read_bits)]
+        #[kani::unwind($unwind)]
+        fn $name() $body
+    };
+}
+
+// binary, log_alphabet_size 5: ordinary; symbol 31 = last of the table, probability 1; and the two rejections
+ans_parse_harness!(parse_binary_las5_a, 34, {
+    parse_binary(5, 3, 1, 1000);
+    parse_binary(5, 31, 0, 1);
+    parse_binary_rejected(5, 4, 4);
+    parse_binary_rejected(5, 32, 1);
+});
+// D[v1] == bucket size (neither under- nor overfull); u(12) == 0 (a one-symbol distribution in disguise); 4095
+ans_parse_harness!(parse_binary_las5_b, 34, {
+    parse_binary(5, 5, 9, 128);
+    parse_binary(5, 2, 7, 0);
+    parse_binary(5, 0, 1, 4095);
+});
+// 4096 mod 6 = 4 (mod 3 and mod 5 are 1: putting the whole remainder on symbol 0 would look the same)
+ans_parse_harness!(parse_flat_las5_a, 34, {
+    parse_flat(5, 2);
+    parse_flat(5, 3);
+    parse_flat(5, 6);
+});
+// 5; the whole table (every bucket exactly full); alphabet_size 1 (D[0] = 4096: single symbol); one past the table
+ans_parse_harness!(parse_flat_las5_b, 34, {
+    parse_flat(5, 5);
+    parse_flat(5, 32);
+    parse_flat(5, 1);
+    parse_flat_rejected(5, 33);
+});
+// the remaining alphabet sizes of log_alphabet_size 5: with _a and _b EVERY flat header for a 32-entry table
+ans_parse_harness!(parse_flat_las5_t1, 34, { parse_flat(5, 4); parse_flat(5, 7); parse_flat(5, 8); parse_flat(5, 9); });
+ans_parse_harness!(parse_flat_las5_t2, 34, { parse_flat(5, 10); parse_flat(5, 11); parse_flat(5, 12); parse_flat(5, 13); });
+ans_parse_harness!(parse_flat_las5_t3, 34, { parse_flat(5, 14); parse_flat(5, 15); parse_flat(5, 16); parse_flat(5, 17); });
+ans_parse_harness!(parse_flat_las5_t4, 34, { parse_flat(5, 18); parse_flat(5, 19); parse_flat(5, 20); parse_flat(5, 21); });
+ans_parse_harness!(parse_flat_las5_t5, 34, { parse_flat(5, 22); parse_flat(5, 23); parse_flat(5, 24); parse_flat(5, 25); });
+ans_parse_harness!(parse_flat_las5_t6, 34, { parse_flat(5, 26); parse_flat(5, 27); parse_flat(5, 28); parse_flat(5, 29); });
+ans_parse_harness!(parse_flat_las5_t7, 34, { parse_flat(5, 30); parse_flat(5, 31); parse_flat_rejected(5, 256); });
+ans_parse_harness!(parse_las6_samples, 66, {
+    parse_flat(6, 5);
+    parse_flat(6, 64);
+    parse_binary(6, 40, 1, 77);
+    parse_flat_rejected(6, 65);
+});
+ans_parse_harness!(parse_las7_samples, 130, {
+    parse_flat(7, 5);
+    parse_binary(7, 100, 127, 3000);
+});
